@@ -12,14 +12,17 @@ import (
 	"context"
 	"fmt"
 	"log"
+	"net"
 	"net/http"
 	"net/http/httptest"
+	"net/netip"
 	"sync"
 	"testing"
 	"time"
 
 	"github.com/jech/storrent/config"
 	"github.com/jech/storrent/peer"
+	"github.com/jech/storrent/protocol"
 	"github.com/jech/storrent/tor"
 	"verifharness/fixture"
 	"verifharness/vk"
@@ -141,6 +144,107 @@ func webseedStop(t *testing.T, r *vk.Run) {
 			}
 		}()
 		c.FP(vk.Hash64("webseed-stop", style, how), true)
+		c.End()
+	}
+}
+
+// busyQueueStop (same real-time part): the torrent is deleted while its mailbox is full and its peers still
+// have reports to hand over. "All its peer connections are closed": every remote end must see its connection
+// closed. Real time because a peer that spins in its exit path (instead of blocking) cannot be waited for
+// in a bubble. Bound for the verdict: 15 real seconds (the clean tree closes them within milliseconds).
+func busyQueueStop(t *testing.T, r *vk.Run, base int) {
+	n := r.Env.N(6, 40)
+	for k := 0; k < n; k++ {
+		i := base + k
+		if !r.Mine(i) {
+			continue
+		}
+		rng := r.Env.Rng(i)
+		np := 1 + rng.IntN(5)
+		d := map[string]any{"part": "webseed-stop", "family": "deletion-with-full-mailbox", "peers": np}
+		c := r.Begin(i, d)
+		func() {
+			g := fixture.RandGeo(rng, 1<<20, []uint32{32 << 10, 64 << 10})
+			g.Name = fmt.Sprintf("bq%d", i)
+			tt, err := tor.ReadTorrent("", bytes.NewReader(g.Metainfo()))
+			if err != nil {
+				c.Inconclusive("ReadTorrent: " + err.Error())
+				return
+			}
+			tt.Log = log.New(&bytes.Buffer{}, "", 0)
+			ctx, cancel := context.WithCancel(context.Background())
+			defer cancel()
+			if _, err := tor.AddTorrent(ctx, tt); err != nil {
+				c.Inconclusive("AddTorrent: " + err.Error())
+				return
+			}
+			closed := make([]chan struct{}, np)
+			for p := 0; p < np; p++ {
+				a, b := net.Pipe()
+				closed[p] = make(chan struct{})
+				go func(b net.Conn, ch chan struct{}) {
+					buf := make([]byte, 4096)
+					for {
+						if _, err := b.Read(buf); err != nil {
+							close(ch)
+							return
+						}
+					}
+				}(b, closed[p])
+				id := []byte(fmt.Sprintf("-VF0004-busyq%07d", p))
+				addr := netip.AddrPortFrom(netip.AddrFrom4([4]byte{8, 8, 4, byte(1 + p)}), 6881)
+				if err := tt.NewPeer("", a, addr, false, protocol.HandshakeResult{Hash: tt.Hash, Id: id, Fast: p%2 == 0, Extended: true}, nil); err != nil {
+					c.Inconclusive("NewPeer: " + err.Error())
+					return
+				}
+			}
+			if _, err := tt.GetStats(); err != nil { // the peers are attached
+				c.Inconclusive("GetStats: " + err.Error())
+				return
+			}
+			time.Sleep(50 * time.Millisecond)
+			hold := make(chan *peer.TorStats)
+			tt.Event <- peer.TorGetStats{Ch: hold}
+			time.Sleep(20 * time.Millisecond)
+			killDone := make(chan error, 1)
+			go func() {
+				kctx, kc := context.WithTimeout(context.Background(), 60*time.Second)
+				defer kc()
+				killDone <- tt.Kill(kctx)
+			}()
+			time.Sleep(20 * time.Millisecond) // the stop is queued behind the held query
+			for f := 0; f < 600; f++ {
+				select {
+				case tt.Event <- peer.TorAnnounce{IPv6: false}:
+				default:
+					f = 600
+				}
+			}
+			<-hold
+			var kerr error
+			select {
+			case kerr = <-killDone:
+			case <-time.After(90 * time.Second):
+				c.Violation("hang", "hang Kill full-mailbox", "Kill has not returned 90 s after the loop was released", d)
+				return
+			}
+			if kerr != nil {
+				c.Violation("hang", "hang Kill full-mailbox", fmt.Sprintf("Kill returned %v", kerr), d)
+				return
+			}
+			c.Count("deletions_with_full_mailbox", 1)
+			deadline := time.After(15 * time.Second)
+			for p := 0; p < np; p++ {
+				select {
+				case <-closed[p]:
+					c.Count("connections_seen_closed", 1)
+				case <-deadline:
+					c.Violation("deletion", "peer-connection-not-closed full-mailbox-at-deletion", fmt.Sprintf("15 s after Kill returned nil, peer %d of %d still has its connection open (the mailbox was full when the torrent stopped)", p, np), d)
+					return
+				}
+			}
+		}()
+		c.FP(vk.Hash64("busyq", np), true)
 		c.End()
 	}
 }
